@@ -50,6 +50,8 @@ type storeHistory struct {
 	Ops2   []SOp
 	// SkipIDs > 0 (C10): the process has already issued that many message ids when the history starts
 	SkipIDs int
+	// Fault (C10): a disk fault during operation number Fault.Target
+	Fault fsFault
 }
 
 func (h *storeHistory) Describe() []string {
@@ -60,6 +62,9 @@ func (h *storeHistory) Describe() []string {
 	l = append(l, "mailboxes "+strings.Join(h.Names, " | "))
 	if h.SkipIDs > 0 {
 		l = append(l, fmt.Sprintf("the process has issued %d message ids before", h.SkipIDs))
+	}
+	if h.Fault.On {
+		l = append(l, h.Fault.String())
 	}
 	for i, o := range h.Ops {
 		l = append(l, fmt.Sprintf("%3d %s", i, o.String()))
